@@ -282,6 +282,16 @@ def run_dask(mon: Monitor, cfg, scheduler: str, seed: int, workers: int = 4, lab
         return f
 
     dbags = [db.from_delayed([dask.delayed(lambda x: x, pure=False)(p) for p in parts]) for parts in bags]
+    # how a partition reaches the library: a list (above), a lazy one-shot iterator (bag.map_partitions(generator function): it can be walked once), or a tuple
+    how = ["lists", "lists", "generator", "tuples"][seed % 4]
+    if how == "generator":
+        def _walk_once(part):
+            for item in part:
+                yield item
+        dbags = [b.map_partitions(_walk_once) for b in dbags]
+    elif how == "tuples":
+        dbags = [b.map_partitions(tuple) for b in dbags]
+    mon.obs["dask_partitions_as|" + how] += 1
     order_sig = None
 
     def go():
@@ -353,7 +363,7 @@ def run(mon: Monitor, tier: str, seed: int, shard: int, nshards: int) -> None:
                 mon.case = {"kind": "direct", "cfg": cfg, "trees": repr(trees)}
                 run_direct(mon, cfg, trees, "direct|pinned")
             if cfg.get("kind", "bytes") != "bytes":
-                for sd in (1, 2):
+                for sd in (1, 2, 3):
                     mon.case = {"kind": "dask", "cfg": cfg, "scheduler": "sync", "seed": sd}
                     run_dask(mon, cfg, "sync", sd, label="dask|sync|pinned")
         drive_direct(mon, rng, 260 if q else 3000, 4 if q else 5)
